@@ -54,7 +54,10 @@ def _work(task):
         obs, err = verify_function(ex, fi, c, label=label, chunk=chunk, block=block)
         results = []
         only = (c.only_for or {}).get(pid)
+        skip = ((c.blocks or {}).get(block, {}).get('skip_for', {}) or {}).get(pid) if block else None
         for oi, ob in enumerate(obs):
+            if skip is not None and any(x in ob.name for x in skip):
+                continue            # an obligation of this block that belongs to another property only
             if shard is not None and oi % shard[1] != shard[0]:
                 continue            # another process takes this obligation
             if only is not None and not any(x in ob.name for x in only):
